@@ -120,6 +120,10 @@ func (tic *TermInCommittee) isQuorum(ids []primitives.MemberId) (bool, uint, uin
 	return quorum.IsQuorum(ids, tic.committeeMembers)
 }
 
+func (tic *TermInCommittee) isCommitteeMember(memberId primitives.MemberId) bool {
+	return proofsvalidator.IsInMembers(tic.committeeMembers, memberId)
+}
+
 func (tic *TermInCommittee) getPreparedLocally() (v primitives.View, ok bool) {
 	if tic.preparedLocally == nil || !tic.preparedLocally.isPreparedLocally {
 		return 0, false
@@ -462,6 +466,10 @@ func (tic *TermInCommittee) HandlePrepare(pm *interfaces.PrepareMessage) {
 	header := pm.Content().SignedHeader()
 	sender := pm.Content().Sender()
 
+	if !tic.isCommitteeMember(sender.MemberId()) {
+		tic.logger.Info("LHMSG RECEIVED PREPARE IGNORE - sender %s is not a member of this term's committee", Str(sender.MemberId()))
+		return
+	}
 	if err := tic.keyManager.VerifyConsensusMessage(header.BlockHeight(), header.Raw(), sender); err != nil {
 		tic.logger.Info("LHMSG RECEIVED PREPARE IGNORE - verification failed for Prepare block-height=%v view=%d block-hash=%s err=%v", header.BlockHeight(), header.View(), header.BlockHash(), err)
 		return
@@ -546,6 +554,10 @@ func (tic *TermInCommittee) HandleCommit(cm *interfaces.CommitMessage) {
 	header := cm.Content().SignedHeader()
 	sender := cm.Content().Sender()
 
+	if !tic.isCommitteeMember(sender.MemberId()) {
+		tic.logger.Info("LHMSG RECEIVED COMMIT IGNORE - sender %s is not a member of this term's committee", Str(sender.MemberId()))
+		return
+	}
 	if err := tic.keyManager.VerifyConsensusMessage(header.BlockHeight(), header.Raw(), sender); err != nil {
 		tic.logger.Info("LHMSG RECEIVED COMMIT IGNORE - verification failed for Commit block-height=%d view=%d block-hash=%s err=%v", header.BlockHeight(), header.View(), header.BlockHash(), err)
 		return
@@ -662,6 +674,9 @@ func (tic *TermInCommittee) isViewChangeValid(expectedLeaderFromNewView primitiv
 	vcmView := header.View()
 	preparedProof := header.PreparedProof()
 
+	if !tic.isCommitteeMember(sender.MemberId()) {
+		return errors.Errorf("sender %s is not a member of this term's committee", Str(sender.MemberId()))
+	}
 	if err := tic.keyManager.VerifyConsensusMessage(header.BlockHeight(), header.Raw(), sender); err != nil {
 		return errors.Wrapf(err, "keyManager.VerifyConsensusMessage failed")
 	}
